@@ -29,7 +29,17 @@ Candidate defects found on the unchanged tree (kept strict; see final report): p
 on 1-D grids; partition_structured(coarse_dims) returns ids >= prod(coarse_dims) when fine/coarse leaves more than one
 surplus increment (fine 5, coarse 3); overlap raises AxisError whenever the result is a single cell.
 
-MUTANTS
+Detection power (scratch copy of /repo/src, POREPY_SRC, one mutant at a time; baseline = the three known defects; every mutant
+added new VIOLATION lines, exit 1):
+  * extract_subgrid: ``h.face_centers = g.face_centers[:, unique_faces]`` -> ``[:, :unique_faces.size]``  -> "geometry copied from the parent ..."
+  * extract_subgrid: ``c = np.sort(np.atleast_1d(c))`` -> no sort                     -> "dimension, cell count and parent_cell_ind", incidence, geometry
+  * _extract_submatrix: ``data = sub_mat.data`` -> ``np.abs(sub_mat.data)`` (signs lost) -> "subgrid incidence = parent incidence ...", recomputed geometry
+  * overlap (face criterion): ``range(num_layers)`` -> ``range(num_layers - 1)``          -> "contains all face-neighbours of the previous layer"
+  * overlap (node criterion): ``(cn.T * active_nodes) > 0`` -> ``> 1``                     -> "contains all face-neighbours of the previous layer"
+  * grid_is_connected: column slice ``[:, cell_ind]`` -> ``[:, cell_ind - cell_ind.min()]``  -> both grid_is_connected obligations
+  * partition_structured: surplus-increment test ``size > coarse`` -> ``size > coarse + 1`` -> "part ids within range" (signature coarse_dims)
+  * partition_structured: ``yi * coarse_dims[0]`` -> ``yi * coarse_dims[1]``                -> "part ids within range" (num_part and coarse_dims)
+  * partition_coordinates: box loop ``range(nc)`` -> ``range(nc - 1)``                      -> "partition_coordinates: returns a partition vector"
 """
 from __future__ import annotations
 
@@ -278,7 +288,8 @@ def check_extract_faces(pp, g, CF, fnodes, f_in):
         bad.append(("extract_subgrid(faces=True): one lower-dimensional cell per chosen face", f"dim {h.dim} cells {h.num_cells}"))
         return bad
     exp_nodes = np.unique(np.concatenate([fnodes[k] for k in f]))
-    if not np.array_equal(np.sort(nmap), exp_nodes) or not np.array_equal(np.asarray(h.nodes), np.asarray(g.nodes)[:, nmap]):
+    coords = np.asarray(h.nodes) if h.dim > 0 else np.asarray(h.cell_centers)  # a point grid stores its point as the cell centre
+    if not np.array_equal(np.sort(nmap), exp_nodes) or not np.array_equal(coords, np.asarray(g.nodes)[:, nmap]):
         bad.append(("extract_subgrid(faces=True): node_map = nodes of the chosen faces, coordinates preserved", f"got {nmap.tolist()} expected {exp_nodes.tolist()}"[:400]))
         return bad
     if not np.array_equal(np.asarray(h.cell_volumes), np.asarray(g.face_areas)[f]) or not np.array_equal(np.asarray(h.cell_centers), np.asarray(g.face_centers)[:, f]):
@@ -464,7 +475,10 @@ def _sweep_partitioners(rep, pp, C19, quick):
                     sw.case((fnname,) + ck + (nco,), nontrivial=nco > 1,
                             sample={"function": fnname, "family": case["family"], "op": case["op"], "emb": case["emb"], "num_coarse": nco})
                     for ob, detail in bad:
-                        rep.violation(ob, f"{case['dim']}-d {case['family']}" + (" embedded" if case["emb"] != "id" else ""),
+                        sig = f"{case['dim']}-d {case['family']}" + (" embedded" if case["emb"] != "id" else "")
+                        if fnname == "partition" and case["dim"] == 1 and "returns" in ob:
+                            sig = "1-d TensorGrid (wrapper delegates to partition_structured)"
+                        rep.violation(ob, sig,
                                       inputs={"kind": fnname, "case": C19._json_case(case), "num_coarse": nco}, detail=detail, confirmed=True)
 
 
